@@ -383,6 +383,20 @@ def run_shard(spec):
         if not isinstance(res, (SchemaParseException, UnknownType)):
             sh.violation("ill-formed-schema-wrong-error", "mutation %s raised %s instead of SchemaParseException/UnknownType" % (kind, exc_name(res)), info)
             return False
+        # the same verdict through the other entry points of the parser
+        from fastavro.schema import expand_schema
+        for how, call in (("parse_schema(expand=True)", lambda: fa.parse_schema(copy.deepcopy(js), expand=True)),
+                          ("expand_schema", lambda: expand_schema(copy.deepcopy(js))),
+                          ("parse_schema(named_schemas={})", lambda: fa.parse_schema(copy.deepcopy(js), {})),
+                          ("parse_schema(_write_hint=False)", lambda: fa.parse_schema(copy.deepcopy(js), _write_hint=False))):
+            st, res = guard(call)
+            if st == "ok":
+                sh.violation("ill-formed-schema-accepted", "mutation %s at depth %d was accepted by %s" % (kind, depth, how), dict(info, how=how))
+                return False
+            if not isinstance(res, (SchemaParseException, UnknownType)):
+                sh.violation("ill-formed-schema-wrong-error", "mutation %s through %s raised %s instead of SchemaParseException/UnknownType" % (kind, how, exc_name(res)), dict(info, how=how))
+                return False
+            sh.count("mutants_rejected_other_entry_points")
         sh.count("mutants_rejected")
         sh.count("mut_" + kind)
         if depth >= 3:
